@@ -196,6 +196,67 @@ pub fn json_case(out: &mut Out, input: &[u8], class: &str) {
 	}
 }
 
+/// One `jsondetect` case: xt's JSON detection trial (`json::input_matches`)
+/// through the verif hook in both supply modes, and serde_json's `IgnoredAny`
+/// alone for the extent of the first value / the error kind.
+pub fn jsondetect_case(out: &mut Out, input: &[u8], class: &str) {
+	let tok = |r: std::io::Result<bool>| match r {
+		Ok(true) => "1".to_string(),
+		Ok(false) => "0".to_string(),
+		Err(e) => format!("io:{}", e.to_string().replace(' ', "_")),
+	};
+	let slice = crate::util::catch(|| xt::verif::input_matches_slice(xt::Format::Json, input));
+	let reader = crate::util::catch(|| {
+		xt::verif::input_matches_reader(xt::Format::Json, crate::util::SchedReader::new(input, vec![], true, None))
+	});
+	let reader1 = crate::util::catch(|| {
+		xt::verif::input_matches_reader(xt::Format::Json, crate::util::SchedReader::new(input, vec![1], true, None))
+	});
+	let st = slice.map(tok).unwrap_or_else(|p| format!("PANIC:{p}"));
+	let rt = reader.map(tok).unwrap_or_else(|p| format!("PANIC:{p}"));
+	let rt1 = reader1.map(tok).unwrap_or_else(|p| format!("PANIC:{p}"));
+	let mut stream = serde_json::Deserializer::from_slice(input).into_iter::<serde::de::IgnoredAny>();
+	let ign = match stream.next() {
+		None => "err:eofValue".to_string(),
+		Some(Ok(_)) => format!("ok:{}", stream.byte_offset()),
+		Some(Err(e)) => {
+			let k = kind_of(&e.to_string());
+			if k == "trailingChars" {
+				format!("ok:{}", stream.byte_offset())
+			} else {
+				format!("err:{k}")
+			}
+		}
+	};
+	out.count(&format!("jsondetect.class.{class}"));
+	out.count(&format!("jsondetect.slice{st}_reader{rt}"));
+	out.eval("json_trial_reader_schedule_independent", &hex(input), rt == "1");
+	if rt1 != rt {
+		out.fail("json_trial_reader_schedule_independent", "json-trial-schedule", format!("input={} all-at-once={rt} one-byte={rt1}", hex(input)));
+	}
+	out.case("jsondetect", &hex(input), &format!("slice:{st} reader:{rt} ign:{ign}"), rt == "1");
+	if st != rt {
+		// The trial differs between the supply modes (input that is not UTF-8:
+		// the slice trial declines outright, the reader trial does not look
+		// inside strings). Observe what that does to detection and to a
+		// translation without an explicit source format.
+		let ds = crate::xtapi::detect(input, &Supply::Slice);
+		let dr = crate::xtapi::detect(input, &Supply::Reader(vec![]));
+		let ts = translate(input, &Supply::Slice, None, Fmt::Json);
+		let tr = translate(input, &Supply::Reader(vec![]), None, Fmt::Json);
+		out.count(&format!(
+			"jsondetect.trial_differs.detect_{}_vs_{}.translate_{}_vs_{}",
+			ds.as_ref().map(|f| f.map_or("none", Fmt::name)).unwrap_or("err"),
+			dr.as_ref().map(|f| f.map_or("none", Fmt::name)).unwrap_or("err"),
+			if ts.ok() { "ok" } else { "err" },
+			if tr.ok() { "ok" } else { "err" },
+		));
+		if ts.ok() != tr.ok() {
+			out.sample(format!("trial differs AND verdict differs: input={} slice={} reader={}", hex(input), ts.describe(), tr.describe()));
+		}
+	}
+}
+
 /// One `jsonstr` case: a JSON string literal (with its quotes) read by
 /// serde_json alone.
 fn jsonstr_case(out: &mut Out, lit: &[u8]) {
@@ -522,6 +583,8 @@ pub fn run(out: &mut Out, rng: &mut Rng, thorough: bool) {
 	for s in &specials {
 		json_case(out, s.as_bytes(), "special_number");
 		json_case(out, format!("[{s}]").as_bytes(), "special_number");
+		jsondetect_case(out, s.as_bytes(), "special_number");
+		jsondetect_case(out, format!("{{\"k\":{s}}}").as_bytes(), "special_number");
 	}
 	for s in [
 		"truefalse", "true false", "truetrue", "nullnull", "null0", "0null", "1 2", "1\n2", "12", "1-2", "1,2", "1:2", "1]", "1}", "1[", "1{", "1\"a\"",
@@ -533,6 +596,16 @@ pub fn run(out: &mut Out, rng: &mut Rng, thorough: bool) {
 		"//c\n1", "/*c*/1", "'a'", "[1]x", "[1]1", "{}x", "\"a\"x", "1 x", "[1] x", "1\u{0}", "1\u{c}", "1\u{b}2",
 	] {
 		json_case(out, s.as_bytes(), "special_stream");
+		jsondetect_case(out, s.as_bytes(), "special_stream");
+	}
+	for s in [
+		"---\n- 1\n", "---\na: 1\n", "--- \"x\"\n", "---\n", "-1\n", "- 1", "a = 1\n", "\"\" = 1\n", "1 = 2\n", "true = 1\n", "[a]\nb = 1\n", "[[a]]\n",
+		"\"\\ud800\"", "\"\\udc00\\ud800\"", "\"\\uZZZZ\"", "\"\\u12\"", "[\"\\ud800\"]", "{\"\\udfff\":1}", "[1e999]", "1e999", "-", "-x", "0x", "01", "1.", "1.x", "1e", "1e+", "1ex",
+	] {
+		jsondetect_case(out, s.as_bytes(), "detect_special");
+	}
+	for raw in [&b"\"\xff\""[..], b"[\"\xff\"]", b"{\"\xc3\":1}", b"\"\xed\xa0\x80\"", b"[1,\"\xf0\x9f\"]", b"\xff", b"[\xff]", b"\xef\xbb\xbf1", b"\"a\xc3\xa9\""] {
+		jsondetect_case(out, raw, "detect_non_utf8");
 	}
 	for b in 0..=255u8 {
 		json_case(out, &[b], "single_byte");
@@ -541,12 +614,21 @@ pub fn run(out: &mut Out, rng: &mut Rng, thorough: bool) {
 		json_case(out, &[b'[', b']', b, b'1'], "collection_then_byte");
 		json_case(out, &[b'"', b, b'"'], "byte_in_string");
 		json_case(out, &[b'[', b'1', b, b'2', b']'], "byte_in_array");
+		jsondetect_case(out, &[b], "single_byte");
+		jsondetect_case(out, &[b'"', b, b'"'], "byte_in_string");
+		jsondetect_case(out, &[b'"', b'\\', b, b'"'], "byte_after_backslash");
+		jsondetect_case(out, &[b'[', b'1', b, b'2', b']'], "byte_in_array");
+		jsondetect_case(out, &[b'{', b'"', b'k', b'"', b, b'1', b'}'], "byte_as_colon");
+		jsondetect_case(out, &[b'1', b], "scalar_then_byte");
 	}
 	out.count("json.exhaustive_every_byte_after_scalar_after_collection_in_string_in_array");
 
 	// ---- json: every sequence of ≤ N tokens
 	let max = 4;
-	sequences(TOKENS, max, &mut |s| json_case(out, s, "token_sequence"));
+	sequences(TOKENS, max, &mut |s| {
+		json_case(out, s, "token_sequence");
+		jsondetect_case(out, s, "token_sequence");
+	});
 	out.count(&format!("json.exhaustive_token_sequences_up_to_{max}_over_{}_tokens", TOKENS.len()));
 	if thorough {
 		// A sample of the 5- and 6-token sequences.
@@ -564,7 +646,9 @@ pub fn run(out: &mut Out, rng: &mut Rng, thorough: bool) {
 		for shape in 0..4 {
 			for inner in [&b"1"[..], b"[]", b"{}", b"\"s\"", b"true", b""] {
 				json_case(out, &nest(n, shape, inner, true), "nesting");
+				jsondetect_case(out, &nest(n, shape, inner, true), "nesting");
 			}
+			jsondetect_case(out, &nest(n, shape, b"1", false), "nesting_unclosed");
 			json_case(out, &nest(n, shape, b"1", false), "nesting_unclosed");
 			// the limit is per document
 			let mut two = nest(n, shape, b"1", true);
@@ -581,6 +665,13 @@ pub fn run(out: &mut Out, rng: &mut Rng, thorough: bool) {
 		}
 	}
 
+	for n in [200usize, 1000, 5000] {
+		for shape in 0..4 {
+			// the detection trial has no depth limit (and does not recurse)
+			jsondetect_case(out, &nest(n, shape, b"1", true), "nesting_deep");
+		}
+	}
+
 	// ---- json: generated documents in every spelling
 	let opts = GenOpts::cdm().for_formats(&[Fmt::Json]);
 	let n = if thorough { 6000 } else { 700 };
@@ -592,6 +683,7 @@ pub fn run(out: &mut Out, rng: &mut Rng, thorough: bool) {
 			let sp = Spelling { level, salt: rng.next() };
 			if let Some(t) = to_json(&v, &sp) {
 				json_case(out, t.as_bytes(), "generated_document");
+				jsondetect_case(out, t.as_bytes(), "generated_document");
 				texts.push(t.into_bytes());
 			}
 		}
@@ -652,12 +744,14 @@ pub fn run(out: &mut Out, rng: &mut Rng, thorough: bool) {
 		let t = rng.pick(&texts).clone();
 		let m = mutate(&t, rng);
 		json_case(out, &m, "mutated");
+		jsondetect_case(out, &m, "mutated");
 	}
 	for _ in 0..(if thorough { 400 } else { 60 }) {
 		let t = rng.pick(&texts).clone();
 		if t.len() <= 200 {
 			for k in 0..t.len() {
 				json_case(out, &t[..k], "every_truncation");
+				jsondetect_case(out, &t[..k], "every_truncation");
 			}
 		}
 	}
